@@ -1003,8 +1003,11 @@ impl fmt::Display for PreExp {
                 }
             }
             Self::Variable(name) => {
-                if name.contains('_') {
-                    //in case this is a escaped variable
+                //a name is escaped only when it would otherwise read as a compound
+                //variable: leading underscores belong to a plain name (and `\_a`
+                //does not parse, the optional base of a compound name takes `_a`)
+                let plain = name.trim_start_matches('$').trim_start_matches('_');
+                if plain.contains('_') || !plain.starts_with(char::is_alphabetic) {
                     format!("\\{}", **name)
                 } else {
                     name.to_string()
